@@ -30,10 +30,15 @@ def cohLine (env : Env) (l : Nat) : Bool :=
        | .ok r => searchScopes env.funcs r != 0
        | .error _ => true)
 
-/-- two active lines with the same insert position have the same scope key -/
+/-- the function index of the scope key of a line -/
+def lineFunc (env : Env) (l : Nat) : Option Nat := (keyOf env l).map (keyFunc env)
+
+/-- two active lines with the same insert position have scope keys of the same function
+    (e.g. a comment line directly after `case x:` — the forced line and the first statement of
+    the clause share their insert position but lie in different track scopes of one function) -/
 def freshPair (env : Env) (l1 l2 : Nat) : Bool :=
   match skipOf env l1, skipOf env l2 with
-  | .ok r1, .ok r2 => r1 != r2 || keyOf env l1 == keyOf env l2
+  | .ok r1, .ok r2 => r1 != r2 || lineFunc env l1 == lineFunc env l2
   | _, _ => true
 
 /-- linear sufficient condition for `freshPair`: the insert position of the line has the line's key -/
